@@ -35,3 +35,55 @@ Example C14_ex_decodes : decode_file (encode_file 2 ex_pairs) = Some (2, ex_pair
 Proof. exact ex_decodes. Qed.
 Example C14_ex_prefix_fails : decode_file (firstn 23 (encode_file 2 ex_pairs)) = None.
 Proof. exact ex_prefix23_fails. Qed.
+
+(* ---- the format for every instantiation of the C template (CodecW.v): count, then per element the key bytes followed by the mapped bytes, no padding, whatever the in-memory layout of the pair ---- *)
+From LC Require Import Codec CodecW.
+Theorem C14_file_roundtrip_any_widths :
+  forall (kw vw : nat) (ps : list (N * N)),
+  Forall (pair_ok_w kw vw) ps ->
+  N.of_nat (length ps) < 2 ^ 64 ->
+  decode_file_w kw vw (encode_file_w kw vw (N.of_nat (length ps)) ps) = Some (N.of_nat (length ps), ps).
+Proof. exact decode_encode_w. Qed.
+Print Assumptions C14_file_roundtrip_any_widths.
+
+Theorem C14_every_truncated_prefix_fails_any_widths :
+  forall (kw vw : nat) (ps : list (N * N)) (j : nat),
+  Forall (pair_ok_w kw vw) ps ->
+  N.of_nat (length ps) < 2 ^ 64 ->
+  (j < length (encode_file_w kw vw (N.of_nat (length ps)) ps))%nat ->
+  decode_file_w kw vw (firstn j (encode_file_w kw vw (N.of_nat (length ps)) ps)) = None.
+Proof. exact prefix_fails_w. Qed.
+Print Assumptions C14_every_truncated_prefix_fails_any_widths.
+
+Theorem C14_file_length_any_widths :
+  forall (kw vw : nat) (cnt : N) (ps : list (N * N)),
+  length (encode_file_w kw vw cnt ps) = (8 + (kw + vw) * length ps)%nat.
+Proof. exact encode_length_w. Qed.
+Print Assumptions C14_file_length_any_widths.
+
+Theorem C14_generic_codec_agrees_with_int_int :
+  forall (cnt : N) (ps : list (N * Z)),
+  encode_file_w 4 4 cnt (map (fun kv : N * Z => (fst kv, int_to_u32 (snd kv))) ps) = encode_file cnt ps.
+Proof. exact encode_file_w_4_4. Qed.
+Print Assumptions C14_generic_codec_agrees_with_int_int.
+
+Theorem C14_padding_is_not_part_of_the_format :
+  forall (kw vw mid tail : nat) (fill cnt : N) (ps : list (N * N)),
+  (0 < mid + tail)%nat ->
+  ps <> [] ->
+  length (encode_file_padded kw vw mid tail fill cnt ps) =
+  (length (encode_file_w kw vw cnt ps) + (mid + tail) * length ps)%nat /\
+  (length (encode_file_w kw vw cnt ps) < length (encode_file_padded kw vw mid tail fill cnt ps))%nat /\
+  encode_file_padded kw vw mid tail fill cnt ps <> encode_file_w kw vw cnt ps.
+Proof. exact padding_is_not_part_of_the_format. Qed.
+Print Assumptions C14_padding_is_not_part_of_the_format.
+
+Theorem C14_padded_file_is_silently_misread :
+  forall (kw vw mid tail : nat) (fill : N) (ps : list (N * N)),
+  N.of_nat (length ps) < 2 ^ 64 ->
+  exists qs : list (N * N),
+  length qs = length ps /\
+  decode_file_w kw vw (encode_file_padded kw vw mid tail fill (N.of_nat (length ps)) ps) =
+  Some (N.of_nat (length ps), qs).
+Proof. exact padded_file_is_accepted. Qed.
+Print Assumptions C14_padded_file_is_silently_misread.
